@@ -27,6 +27,9 @@ ALPHA10 = (0x00, 0x01, 0x02, 0x04, 0x07, 0x3F, 0x40, 0x80, 0xC0, 0xFF)
 ALPHA24 = tuple(sorted(set(ALPHA8 + ALPHA10 + (0x03, 0x05, 0x06, 0x08, 0x09, 0x10, 0x1F, 0x21, 0x30, 0x41, 0x61, 0x7F, 0x81, 0xBF, 0xC1, 0xFE))))
 
 
+WSIDE_POSITIONS = [0, 1, 12] + list(range(0x3FC0, 0x4006))
+
+
 def crash_sig(e):
     tb = traceback.extract_tb(e.__traceback__)
     return "%s@%s" % (type(e).__name__, tb[-1].name if tb else "?")
@@ -163,12 +166,63 @@ def judge_ctor(spec, rdclass, values, origin):
     return "constructed", probs
 
 
+def judge_wside(spec, rdclass, values, pos):
+    """Write side with a live compression table: the record is written twice into one buffer whose
+    first copy starts at `pos` (so that names straddle the 14-bit pointer limit for pos near
+    0x3FFF); both copies must decode - by the reference and by the library - to the same record."""
+    import io
+    T = spec.name
+    probs = []
+    cls = dns.rdata.get_rdata_class(rdclass, spec.rdtype)
+    # two records whose names share a multi-label suffix but differ in the first label
+    tail = (b"example", b"test", b"")
+    vals = []
+    for first in (b"www", b"mail"):
+        vals.append(tuple(((first,) + tail) if type(f_.kind) is R.Name else v for f_, v in zip(spec.fields, values)))
+    objs = [cls(rdclass, spec.rdtype, *spec.lib_args(v, None)) for v in vals]
+    f = io.BytesIO()
+    f.write(b"\x00" * pos)
+    compress = {}
+    spans = []
+    try:
+        for obj in objs:
+            a = f.tell()
+            obj.to_wire(f, compress, None)
+            spans.append((a, f.tell() - a))
+            f.write(b"\x00")
+    except Exception as e:
+        probs.append(("%s/to_wire-compress/crash/%s" % (T, crash_sig(e)), "to_wire(file at %d, compress) raised %s: %s" % (pos, type(e).__name__, e)))
+        return "crash", probs
+    buf = f.getvalue()
+    for n, (a, ln) in enumerate(spans):
+        values, obj = vals[n], objs[n]
+        ref = R.ref_decode(spec, buf, a, ln)
+        if ref[0] != "ok" or tuple(ref[1]) != tuple(values):
+            probs.append(("%s/to_wire-compress/reference-decodes-differently/copy-%d" % (T, n),
+                          "record %r written at %d with a compression table decodes (reference) to %r" % (values, a, ref[:2])))
+        try:
+            back = dns.rdata.from_wire(rdclass, spec.rdtype, buf, a, ln)
+            if back != obj:
+                probs.append(("%s/to_wire-compress/library-decodes-differently/copy-%d" % (T, n), "%s != %s (written at %d)" % (back, obj, a)))
+        except Exception as e:
+            probs.append(("%s/to_wire-compress/own-encoding-rejected/copy-%d" % (T, n), "%s: %s (written at %d)" % (type(e).__name__, e, a)))
+    for k_, v_ in compress.items():
+        if v_ > 0x3FFF:
+            probs.append((T + "/to_wire-compress/table-offset-beyond-14-bits", "compress[%s] = %d" % (k_, v_)))
+            break
+    return "written", probs
+
+
 # ------------------------------------------------------------------ case execution (shared with recheck)
 def run_case(case):
     spec = R.BY_NAME[case["spec"]]
     mode = case["mode"]
     origin = _origin(case.get("origin"))
     buf = bytes(case["buf"])
+    if mode == "W":
+        ref = R.ref_decode(spec, buf, case["off"], case["rdlen"])
+        assert ref[0] == "ok" and not ref[2], ref
+        return judge_wside(spec, case["rdclass"], ref[1], case["pos"])
     if mode == "B":
         ref = R.ref_decode(spec, buf, case["off"], case["rdlen"])
         assert ref[0] == "ok" and not ref[2], ref
@@ -176,7 +230,47 @@ def run_case(case):
     return judge_wire(spec, case["rdclass"], buf, case["off"], case["rdlen"], origin)
 
 
+# ------------------------------------------------------------------ compression table after a Renderer rollback
+def _rollback_relevant(sig):
+    return sig.startswith(("renderer/refparse", "renderer/kept-sets-differ"))
+
+
+def rollback_case(case):
+    """The compression table handed to to_wire by a size-limited dns.renderer.Renderer that
+    refused a record set and carried on: every name written afterwards must still decode to
+    itself (c08.judge_renderer parses the output with the independent reference parser and
+    compares the kept record sets)."""
+    from . import c08
+    probs, info = c08.judge_renderer(case)
+    return [("C02/renderer-rollback/" + s.split("/", 1)[1], w) for s, w in probs if _rollback_relevant(s)], info
+
+
+def w_rollback(task, col):
+    _, mi, lo, hi = task
+    for L in range(lo, hi):
+        for tsig in (0, 3):
+            case = {"mode": "renderer-rollback", "msg": mi, "L": L, "tsig": tsig}
+            probs, info = rollback_case(case)
+            col.count("evaluations")
+            col.count("evaluations_renderer_rollback")
+            col.outcome("renderer-rollback:%s" % (probs[0][0] if probs else info.get("outcome", "ok")))
+            for s_, w_ in probs:
+                col.violation(s_, "%s (message %d, max_size %d, tsig variant %d)" % (w_, mi, L, tsig), case)
+
+
+def rollback_tasks():
+    from . import c08
+    out = []
+    for mi in range(len(c08.MESSAGES)):
+        full = c08.base_facts(mi)["full"]
+        for lo in range(512, full + 20, 200):
+            out.append(("rollback", mi, lo, min(lo + 200, full + 20)))
+    return out
+
+
 def recheck(case):
+    if case.get("mode") == "renderer-rollback":
+        return rollback_case(case)[0]
     _, probs = run_case(case)
     return [("C02/" + s, w) for s, w in probs]
 
@@ -260,6 +354,9 @@ def task_values(task, col):
         for prefix, rd in compressed_variants(spec, values):
             _do(col, {"spec": name, "rdclass": rdclass, "origin": 0, "mode": "Ac", "buf": prefix + rd + SUFFIX,
                       "off": len(prefix), "rdlen": len(rd)})
+        if first and type(spec) is R.Spec and any(type(f.kind) is R.Name for f in spec.fields):
+            for pos in WSIDE_POSITIONS:
+                _do(col, {"spec": name, "rdclass": rdclass, "origin": 0, "mode": "W", "buf": w, "off": 0, "rdlen": len(w), "pos": pos})
         if first:
             col.sample({"type": name, "rdclass": rdclass, "values": repr(values)[:200], "wire": w[:64]}, limit=1)
             first = False
@@ -345,6 +442,8 @@ def run(ctx):
         "per (class,type): k-deviation over the schema's per-field boundary domains (every value of every field once; "
         "pairs over the first `pair_cap` alternatives), each value through reference-wire->from_wire->attributes/"
         "to_wire (bare, embedded in a message, with origin, with compressed names) and constructor->to_wire->from_wire; "
+        "each name-carrying type's base value written twice through to_wire(file, compress) at every start offset in "
+        "{0,1,12} + [0x3FC0,0x4005] (names straddling the 14-bit pointer limit) and decoded by reference and library; "
         "arbitrary octets: all strings of length<=2 (quick: every pair with one octet in a 40-value alphabet), all "
         "strings of length<=n over an 8-octet alphabet, every truncation / single-octet substitution (10 values) / "
         "1-2 trailing octets of valid encodings.  A case is distinct by (type,class,mode,origin,octets); non-trivial "
@@ -375,6 +474,7 @@ def run(ctx):
             for part in range(1, 9):
                 tasks.append((task_octets, (s.name, c0, part, n8, full2)))
         tasks.append((task_faults, (s.name, c0, tier, fault_cap, fault_maxlen)))
+    tasks.extend((w_rollback, t) for t in rollback_tasks())
     ctx.pmap(_dispatch, tasks)
 
 
